@@ -8,6 +8,7 @@ struct V {
     file: String,
     ctx: Vec<&'static str>,
     fn_depth: usize,
+    in_trait_impl: usize,
 }
 
 fn esc(s: &str) -> String {
@@ -56,6 +57,12 @@ impl<'ast> Visit<'ast> for V {
         self.attrs(attrs, pos, &name);
         visit::visit_item(self, i);
     }
+    fn visit_item_impl(&mut self, i: &'ast syn::ItemImpl) {
+        let t = i.trait_.is_some();
+        if t { self.in_trait_impl += 1; }
+        visit::visit_item_impl(self, i);
+        if t { self.in_trait_impl -= 1; }
+    }
     fn visit_item_fn(&mut self, i: &'ast syn::ItemFn) {
         self.fn_depth += 1;
         visit::visit_item_fn(self, i);
@@ -69,7 +76,8 @@ impl<'ast> Visit<'ast> for V {
             syn::ImplItem::Macro(x) => (&x.attrs, x.mac.path.to_token_stream().to_string()),
             _ => (&[], String::new()),
         };
-        self.attrs(attrs, "impl-item", &name);
+        let pos = if self.in_trait_impl > 0 { "trait-impl-item" } else { "impl-item" };
+        self.attrs(attrs, pos, &name);
         visit::visit_impl_item(self, i);
     }
     fn visit_impl_item_fn(&mut self, i: &'ast syn::ImplItemFn) {
@@ -190,7 +198,7 @@ fn main() {
         };
         match syn::parse_file(&src) {
             Ok(f) => {
-                let mut v = V { file: path.clone(), ctx: vec![], fn_depth: 0 };
+                let mut v = V { file: path.clone(), ctx: vec![], fn_depth: 0, in_trait_impl: 0 };
                 // inner attributes of the file (#![cfg(..)])
                 v.attrs(&f.attrs, "file", "");
                 v.visit_file(&f);
